@@ -4,6 +4,8 @@ import (
 	"errors"
 	"fmt"
 	"math/big"
+	"os"
+	"regexp"
 	"sort"
 	"strings"
 
@@ -650,6 +652,21 @@ func runCampaign(t *vk.T, which, proto string, n, posIdx, budget, part, parts in
 		if i%parts == part {
 			mine = append(mine, f)
 		}
+	}
+	if re := os.Getenv("VERIF_FAULT_FILTER"); re != "" {
+		// exploration aid (not used by any registered command): run every fault whose description matches, unsampled
+		rx, err := regexp.Compile(re)
+		if err != nil {
+			t.Inconclusive("bad VERIF_FAULT_FILTER: %v", err)
+			return
+		}
+		mine = nil
+		for i, f := range faults {
+			if i%parts == part && rx.MatchString(proto+" "+f.String()) {
+				mine = append(mine, f)
+			}
+		}
+		budget = 0
 	}
 	if budget > 0 && len(mine) > budget {
 		perm := t.Rng.Perm(len(mine))
